@@ -145,7 +145,7 @@ def rand_udp_exec(rng, nops):
                 infl[v] += 1
         elif k < 0.84:
             if not isnb[u] and infl[u] == 0 and rng.random() < 0.9:
-                continue                                  # (a blocking recvFrom without a datagram is refused by the driver after 100 ms)
+                continue                                  # (a blocking recvFrom without a datagram is refused by the driver after 20 ms)
             ops.append("urecv %d %d" % (u, rng.choice([0, 1, 10, 24, 100, 2000, 65507, 70000, 70000])))
             infl[u] = max(0, infl[u] - 1)
         elif k < 0.93:
